@@ -27,6 +27,7 @@ TECHNIQUE = "deterministic simulation with fault injection at the storage seam (
 RUNS = {"quick": 6, "thorough": 40}  # number of request configurations
 JOB_TIMEOUT = 900.0
 CHUNK = {"quick": 36, "thorough": 120}
+OPTIMIZE_SLOTS = {"quick": [2], "thorough": [2]}  # every third configuration is served by an interpreter running under `python -O`
 COMPONENTS = {
     "real": ["MazeDataset.from_config / read / save", "MazeDataset.generate + filters", "zanj.ZANJ.save/read, LoadedZANJ", "stdlib zipfile (deflate, CRC, headers)", "real scratch filesystem for path/exists logic"],
     "stub": ["archive file object (FaultyFile behind zanj's zipfile namespace)", "time.time/localtime seen by zanj and zipfile (SimClock)", "contents of np.empty() memory in the dataset serialiser (seed-derived pattern)"],
@@ -811,29 +812,34 @@ def execute_all(pool, rng: random.Random, tier: str, n: int):
             kb = rand_knobs(rng, 1000)
             kb.update(threshold=100, only="big-count", request={})
             batch.append((Rb, kb))
-        res = pool.run([{"prop": PROP, "tier": tier, "timeout": JOB_TIMEOUT, "spec": {"probe": {"cfg": R, "knobs": k}}} for R, k in batch])
+        K = len(pool.hashseeds)
+        res = pool.run([{"prop": PROP, "tier": tier, "timeout": JOB_TIMEOUT, "slot": (len(cfgs) + j) % K, "spec": {"probe": {"cfg": R, "knobs": k}}} for j, (R, k) in enumerate(batch)])
         cfgs += batch
         probes += res
         pairs += [({"probe": {"cfg": R, "knobs": k}}, r) for (R, k), r in zip(batch, res)]
     specs = []
     layouts = []
-    for (R, k), r in zip(cfgs, probes):
+    K = len(pool.hashseeds)
+    for ci, ((R, k), r) in enumerate(zip(cfgs, probes)):
+        slot = ci % K  # every scenario of a configuration runs in the interpreter slot that probed it (one slot in three is `python -O`)
         if not isinstance(r, dict) or r.get("status") != "ok" or not r.get("layout"):
             continue
         layouts.append({"cfg": R, "knobs": k, "size": r["layout"]["size"], "n_writes": len(r["layout"]["write_lens"]), "minimal_format": r["layout"]["format_minimal"], "control": r["layout"]["control"]})
         if k.get("only") == "big-count":
             for sp in (False, True):
-                specs.append({"cfg": R, "knobs": k, "scenarios": [{"kind": "shared-dir", "field": "n_mazes-same-abbreviation", "cfg": dict(R, n_mazes=1024), "same_process": sp}]})
+                specs.append({"cfg": R, "knobs": k, "slot": slot, "scenarios": [{"kind": "shared-dir", "field": "n_mazes-same-abbreviation", "cfg": dict(R, n_mazes=1024), "same_process": sp}]})
             continue
         for sc in scenarios_for(rng, R, r["layout"], tier):
-            specs.append({"cfg": R, "knobs": k, "scenarios": [sc]})
+            specs.append({"cfg": R, "knobs": k, "slot": slot, "scenarios": [sc]})
     ch = CHUNK[tier]
     jobs = []
     shaped = []
-    for i in range(0, len(specs), ch):
-        g = specs[i : i + ch]
-        jobs.append({"prop": PROP, "tier": tier, "timeout": JOB_TIMEOUT, "spec": {"batch": g}})
-        shaped.append({"batch": g})
+    for slot in range(K):
+        mine = [x for x in specs if x["slot"] == slot]
+        for i in range(0, len(mine), ch):
+            g = mine[i : i + ch]
+            jobs.append({"prop": PROP, "tier": tier, "timeout": JOB_TIMEOUT, "slot": slot, "spec": {"batch": g}})
+            shaped.append({"batch": g})
     results = pool.run(jobs)
     from mdsim.main import flatten
 
